@@ -262,7 +262,7 @@ def units_for(kind, file, struct):
            tail="\n        proof { assert forall|i: int| 0 <= i < self.q().len() implies #[trigger] self.q()[i] != slot as u32 by { assert(old(self).q().contains(self.q()[i])); } }\n"),
         # MetaSubscriber::consume: what the non-blocking queues' dequeue is built on. The getter READS THE SLOT BEFORE IT IS RELEASED (mechanism:
         # after the release another thread may own and overwrite the slot), the slot is released exactly once, the oldest event is returned
-        fn("consume", impl=IMPL_SUB, props=["C18", "C01", "C05"],
+        fn("consume", impl=IMPL_SUB, props=["C18", "C01", "C05", "C13"],
            sig="pub fn consume(&mut self) -> (r: Option<u64>)", sig_anchor=r"fn consume<GetterReturnType: 'a,",
            rules=[Rule("R15-getter", r"getter_fn\(slot_ref\)", "self.slot_get(slot_ref)", count=1, note="getter_fn(slot_ref) -> slot_get (reads the slot; requires it to be still allocated)"),
                   Rule("R15-report-len", r"report_len_after_dequeueing_fn\(([^()]*)\);", r"self.report(\1);", count=1, note="length-report callback -> ghost log"),
